@@ -30,7 +30,7 @@ def one(sid):
 def main():
     sids = sys.argv[1:] or sorted(s for s in os.listdir("/verif/seeded") if os.path.exists(f"/verif/seeded/{s}/patch.diff"))
     missed = []
-    with ThreadPoolExecutor(max_workers=8) as ex:
+    with ThreadPoolExecutor(max_workers=14) as ex:
         for sid, fired in ex.map(one, sids):
             mp = f"/verif/seeded/{sid}/meta.json"
             meta = json.load(open(mp))
